@@ -36,3 +36,45 @@ Print Assumptions C16_cmp_antisym.
 Print Assumptions C16_cmp_trans.
 Print Assumptions C16_product.
 Print Assumptions C16_product_trans.
+
+(** ** on ids: the crate's [Ord for MarkerTree] never sees an unfolded diagram; it compares [kind()] of the two ids -
+    one node each, the complement bits pushed down lazily -, the variable, then the children lexicographically by a
+    recursive comparison of child ids ([Interner/CmpModel.v], [cmp_i]).  On every pair of valid ids that walk is [m_cmp]
+    of the diagrams, so it is [Eq] exactly for the same id, antisymmetric and transitive, and it does not change when
+    more nodes are interned later ("the order depends only on the markers themselves"). *)
+From PV Require Import Interner.Store Interner.StoreProofs Interner.Intern Interner.AndModel Interner.InternI Interner.InternIProofs
+  Interner.EvalModel Interner.CmpModel Interner.CmpProofs.
+
+Theorem C16_cmp_on_ids : forall (a : marena) (x y : nid), Inv a -> valid (length a) x -> valid (length a) y ->
+  m_cmp_i a x y = Some (m_cmp (unfold a x) (unfold a y)).
+Proof. exact m_cmp_i_default. Qed.
+
+Theorem C16_cmp_on_ids_eq : forall (a : marena) (x y : nid), Inv a -> valid (length a) x -> valid (length a) y ->
+  (m_cmp_i a x y = Some Eq <-> x = y).
+Proof. exact m_cmp_i_eq_iff. Qed.
+
+Theorem C16_cmp_on_ids_antisym : forall (a : marena) (x y : nid), Inv a -> valid (length a) x -> valid (length a) y ->
+  m_cmp_i a y x = option_map CompOpp (m_cmp_i a x y).
+Proof. exact m_cmp_i_antisym. Qed.
+
+Theorem C16_cmp_on_ids_trans : forall (a : marena) (x y z : nid), Inv a -> valid (length a) x -> valid (length a) y -> valid (length a) z ->
+  m_cmp_i a x y = Some Lt -> m_cmp_i a y z = Some Lt -> m_cmp_i a x z = Some Lt.
+Proof. exact m_cmp_i_trans. Qed.
+
+Theorem C16_cmp_after_more_interning : forall (a b : marena) (x y : nid), Inv a -> valid (length a) x -> valid (length a) y ->
+  m_cmp_i (a ++ b) x y = m_cmp_i a x y.
+Proof. exact m_cmp_i_stable. Qed.
+
+Theorem C16_cmp_on_reachable_stores : forall (pv pfv : N) (h w : list mop) (i j : nat),
+  let s := mrun_i pv pfv (fresh_i (mrun_i pv pfv init_i h)) w in let a := si_arena s in
+  m_cmp_i a (regi s i) (regi s j) = Some (m_cmp (reg (forget s) i) (reg (forget s) j)) /\
+  (m_cmp_i a (regi s i) (regi s j) = Some Eq <-> regi s i = regi s j) /\
+  m_cmp_i a (regi s j) (regi s i) = option_map CompOpp (m_cmp_i a (regi s i) (regi s j)).
+Proof. exact cmp_i_reachable. Qed.
+
+Print Assumptions C16_cmp_on_ids.
+Print Assumptions C16_cmp_on_ids_eq.
+Print Assumptions C16_cmp_on_ids_antisym.
+Print Assumptions C16_cmp_on_ids_trans.
+Print Assumptions C16_cmp_after_more_interning.
+Print Assumptions C16_cmp_on_reachable_stores.
